@@ -47,7 +47,7 @@ func genC10(t *rapid.T) c10Case {
 	}
 	c := c10Case{
 		Squash:  pick(t, "squash", "", "none", "root", "all", "Root", "ALL", "NoNe", "rOOt", "bogus", "all ", "root_squash"),
-		Flavor:  pick(t, "flavor", uint32(1), 1, 1, 1, 1, 0, 2, 3, 6, 0xFFFFFFFF),
+		Flavor:  pick(t, "flavor", uint32(1), 1, 1, 1, 1, 1, 1, 0, 2, 3, 6, 0xFFFFFFFF, 256, 257, 513, 0x10000, 0x10001, 0x01000001, 0x80000001),
 		Uid:     id("uid"),
 		Gid:     id("gid"),
 		Machine: pick(t, "machine", "", "h", "host", strings.Repeat("m", 7), strings.Repeat("x", 255)),
